@@ -130,6 +130,24 @@ def case_linked_and_embedded():
     return {'meta': {'pages': pages}, 'opts': o, 'starts': [('h1', '/')], 'start_spellings': [es.canon('h1', '/')]}
 
 
+def case_finish_together(delay, width):
+    """two workers whose last two items end in the same moment: a leaf and a page that still has a link to add (several such
+    pairs, answered after the same delay).  Whether the crawl may stop is decided between those two completions"""
+    P = lambda kind, **kw: dict({'kind': kind, 'links': [], 'target': None, 'delay': 0.0, 'code': 200}, **kw)
+    L = lambda p: ('h1', p, False, p)
+    leaves = ['/a', '/t', '/u/v', '/zz'][:width]
+    docs = ['/b', '/r3', '/d/e', '/k/m/n.html'][:width]
+    tails = ['/c.html', '/k/l', '/d/f.html', '/p/q?y=2'][:width]
+    pages = {('h1', '/'): P('doc', links=[L(x) for pair in zip(leaves, docs) for x in pair])}
+    for lf, dc, tl in zip(leaves, docs, tails):
+        pages[('h1', lf)] = P('leaf', delay=delay)
+        pages[('h1', dc)] = P('doc', links=[L(tl)], delay=delay)
+        pages[('h1', tl)] = P('leaf', delay=delay)
+    o = {'recursive': True, 'preq': False, 'level': None, 'prl': None, 'no_parent': False, 'tries': 1, 'acc': None, 'rej': None,
+         'span': False, 'span_preq': False, 'span_linked': False, 'maxredir': None, 'conc': 2}
+    return {'meta': {'pages': pages}, 'opts': o, 'starts': [('h1', '/')], 'start_spellings': [es.canon('h1', '/')]}
+
+
 def case_root_first():
     """two start URLs, --no-parent, two workers: /d/ (slow) and /k/x.html both link to /d/e2; the fast page discovers it first, the row
     keeps root /k/x.html and --no-parent refuses it, although it lies under the directory of the start URL /d/ that links to it"""
@@ -221,7 +239,9 @@ def classify(v):
 
 # --------------------------------------------------------------------------
 def gen_cases(r, n, thorough=False):
-    cases = [('f28', case_f28()), ('f29', case_f29()), ('root-first', case_root_first()), ('many-links', case_many_links()), ('frame-diamond', case_frame_diamond()), ('linked-and-embedded', case_linked_and_embedded())]
+    cases = [('f28', case_f28()), ('f29', case_f29()), ('root-first', case_root_first()), ('many-links', case_many_links()), ('frame-diamond', case_frame_diamond()), ('linked-and-embedded', case_linked_and_embedded()),
+             ('finish-together-1', case_finish_together(0.05, 1)), ('finish-together-2', case_finish_together(0.1, 2)),
+             ('finish-together-4', case_finish_together(0.03, 4))]
     for i in range(n):
         kind = i % 6
         if kind == 0:
